@@ -38,3 +38,8 @@ Definition spec_ToStr_any (n : nat) (ws : list Z) : list Z :=
   let m := (8 / n)%nat in
   let padded := ws ++ repeat 0 ((m - length ws mod m) mod m) in
   map (fun g => numeral n g mod 256) (chunks_seq (S (length padded)) m padded).
+
+(** the round trip in the other direction: FromStr(ToStr(ws)) is ws followed by the zero words
+    that fill the last byte *)
+Definition spec_FromStr_ToStr (n : nat) (ws : list Z) : list Z :=
+  let m := (8 / n)%nat in ws ++ repeat 0 ((m - length ws mod m) mod m).
